@@ -2,7 +2,7 @@
    proofs in HelloKxProofs.v.  The model's state space is finite (identifiers are reused once
    unreferenced), so the theorems are proved by computing the closure of the initial state
    inside the kernel and lifting it to executions of ANY length by induction. *)
-From Verif Require Import Prelude HelloKx HelloKxProofs.
+From Verif Require Import Prelude Gen HelloKx HelloKxProofs.
 
 (* For every interleaving of any length of: either router (or both at once) starting a setup;
    requests and responses delivered in any order the receivers accept, or lost; duplicates
@@ -37,3 +37,13 @@ Example C14_nonvacuous :
   quiescent s5 = true /\ established (lo s5) = true /\ established (hi s5) = true /\ agree s5 = true /\
   st_mem s5 closure = true.
 Proof. vm_compute. repeat split; reflexivity. Qed.
+
+(* ---------- one hello in flight per destination (go/ast obligation on the source under test) ---------- *)
+(* The model's [start] event is atomic: a router checks that it has no hello in flight for the
+   destination, sends the request and records the pending state in one step.  The router runs one
+   tun worker per CPU, and two of them can have packets for the same not-yet-keyed destination.
+   [start] is one step because HelloPingHandler.Send does all three under sendLock, held for its
+   whole body (computed from router/ping_hello.go on every run). *)
+Theorem C14_start_is_atomic : Gen.hello_send_locked = true.
+Proof. reflexivity. Qed.
+Print Assumptions C14_start_is_atomic.
